@@ -77,7 +77,7 @@ class CustomizedMultilayerPerceptron(BaseMultilayerPerceptron):
         max_fun,
     ):
         args = (
-            [15000]
+            [max_fun]
             if "max_fun"
             in inspect.signature(BaseMultilayerPerceptron.__init__).parameters
             else []
